@@ -13,7 +13,12 @@ import (
 	"sync"
 )
 
-const VerifDir = "/verif"
+var VerifDir = func() string {
+	if d := os.Getenv("VERIF_DIR"); d != "" {
+		return d
+	}
+	return "/verif"
+}()
 
 var CarBin = filepath.Join(VerifDir, "bin", "car")
 
